@@ -561,4 +561,4 @@ def _obligations():
 
 
 def obligations():
-    return _obligations() + [labels_obligation("C15"), selectors_obligation("C15"), effects_obligation("C15"), plumbing_obligation("C15"), overrides_obligation("C15"), options_obligation("C15"), handlers_obligation("C15")]
+    return _obligations() + [labels_obligation("C15"), selectors_obligation("C15"), mutations_obligation("C15"), effects_obligation("C15"), plumbing_obligation("C15"), overrides_obligation("C15"), options_obligation("C15"), handlers_obligation("C15")]
